@@ -28,11 +28,11 @@ NL == {LF, CR}
 Slice(s, a, b) == SubSeq(s, a, b - 1)
 From(s, a) == SubSeq(s, a, Len(s))
 
-\* Scans proceed in windows of W positions: a set comprehension inside the window, recursion from
+\* Scans proceed in windows of WinLen positions: a set comprehension inside the window, recursion from
 \* window to window.  (TLC's cost of a recursive operator grows faster than linearly with the
 \* recursion depth -- a byte-by-byte recursion over a 16 KB line takes half a minute -- while windows
 \* keep the work proportional to the distance scanned, unlike one comprehension over the whole rest.)
-W == 64
+WinLen == 64
 MinOf(S) == CHOOSE x \in S : \A y \in S : x <= y
 MaxOf(S) == CHOOSE x \in S : \A y \in S : x >= y
 
@@ -40,7 +40,7 @@ MaxOf(S) == CHOOSE x \in S : \A y \in S : x >= y
 RECURSIVE ScanTo(_, _, _)
 ScanTo(s, i, S) ==
   IF i > Len(s) THEN Len(s) + 1
-  ELSE LET hi == IF i + W - 1 < Len(s) THEN i + W - 1 ELSE Len(s)
+  ELSE LET hi == IF i + WinLen - 1 < Len(s) THEN i + WinLen - 1 ELSE Len(s)
            hit == {k \in i..hi : s[k] \in S}
        IN  IF hit # {} THEN MinOf(hit) ELSE ScanTo(s, hi + 1, S)
 
@@ -48,7 +48,7 @@ ScanTo(s, i, S) ==
 RECURSIVE ScanWhile(_, _, _)
 ScanWhile(s, i, S) ==
   IF i > Len(s) THEN Len(s) + 1
-  ELSE LET hi == IF i + W - 1 < Len(s) THEN i + W - 1 ELSE Len(s)
+  ELSE LET hi == IF i + WinLen - 1 < Len(s) THEN i + WinLen - 1 ELSE Len(s)
            hit == {k \in i..hi : s[k] \notin S}
        IN  IF hit # {} THEN MinOf(hit) ELSE ScanWhile(s, hi + 1, S)
 
@@ -56,7 +56,7 @@ ScanWhile(s, i, S) ==
 RECURSIVE RScanTo(_, _, _, _)
 RScanTo(s, i, j, S) ==
   IF j <= i THEN 0
-  ELSE LET lo == IF j - W > i THEN j - W ELSE i
+  ELSE LET lo == IF j - WinLen > i THEN j - WinLen ELSE i
            hit == {k \in lo..(j - 1) : s[k] \in S}
        IN  IF hit # {} THEN MaxOf(hit) ELSE RScanTo(s, i, lo, S)
 
@@ -72,7 +72,7 @@ RECURSIVE FindSub(_, _, _)
 FindSub(s, i, p) ==
   IF i + Len(p) - 1 > Len(s) THEN 0
   ELSE LET last == Len(s) - Len(p) + 1
-           hi == IF i + W - 1 < last THEN i + W - 1 ELSE last
+           hi == IF i + WinLen - 1 < last THEN i + WinLen - 1 ELSE last
            hit == {k \in i..hi : HasPrefixAt(s, k, p)}
        IN  IF hit # {} THEN MinOf(hit) ELSE FindSub(s, hi + 1, p)
 
